@@ -509,7 +509,47 @@ let cmd_divider line =
     print_endline (Buffer.contents b)
   | _ -> print_endline "?"
 
-let commands : (string * (string -> unit)) list ref = ref [ ("divider", cmd_divider); ("contact", cmd_contact); ("vtkread", cmd_vtkread); ("output", cmd_output); ("params", cmd_params); ("vtk", cmd_vtk); ("population", cmd_population); ("replay", cmd_replay); ("forces", cmd_forces); ("geometry", cmd_geometry); ("valid", cmd_valid); ("cellcycle", cmd_cellcycle); ("kernel", cmd_kernel); ("grid", cmd_grid); ("integrate", cmd_integrate) ]
+(* ---------------------------------------------------------------- C13 acceptance gate and Poisson disk sampling *)
+let cmd_init line =
+  let t = Array.of_list (toks line) in
+  let pos = ref 1 in
+  let next () = let s = t.(!pos) in incr pos; s in
+  let ni () = int_of_string (next ()) in
+  let nf () = f_of_s (next ()) in
+  match t.(0) with
+  | "GATE" ->
+    let nn = ni () in
+    let nodes = List.init nn (fun _ -> let x = nf () in let y = nf () in let z = nf () in { vx = x; vy = y; vz = z }) in
+    let nfc = ni () in
+    let faces = List.init nfc (fun _ -> let k = ni () in let ids = List.init k (fun _ -> ni ()) in ids) in
+    if List.exists (fun f -> List.length f <> 3) faces then print_endline "OUTSIDE-MODEL" else begin
+      let tris = List.map (fun f -> match f with [a; b; c] -> ((int_to_n a, int_to_n b), int_to_n c) | _ -> assert false) faces in
+      if not (init_gate_b tris) then print_endline "REJECT gate"
+      else match geo_repair_f nodes tris with
+        | None -> print_endline "REJECT orientation"
+        | Some fs -> print_endline ("ACCEPT" ^ String.concat "" (List.map (fun ((a, b), c) -> Printf.sprintf " %d %d %d" (n_to_int a) (n_to_int b) (n_to_int c)) fs))
+    end
+  | "PDS" ->
+    let lmin = nf () in
+    let lo = let x = nf () in let y = nf () in let z = nf () in ((x, y), z) in
+    let hi = let x = nf () in let y = nf () in let z = nf () in ((x, y), z) in
+    let n = ni () in
+    let pts = Array.init n (fun _ -> let x = nf () in let y = nf () in let z = nf () in ((x, y), z)) in
+    let g = grid_dims_f lmin lo hi in
+    let st1 = ref (Some (init_empty_f g)) in
+    Array.iter (fun p -> match !st1 with Some s -> st1 := init_place_f g s p { op_pos = p; op_created = true } | None -> ()) pts;
+    (match !st1 with
+     | None -> print_endline "OOB"
+     | Some s1 ->
+       (match init_poisson_f g (Float64.mul lmin lmin) s1 (init_empty_f g) with
+        | None -> print_endline "OOB"
+        | Some s2 ->
+          let out = init_content_f g s2 in
+          let idx p = let r = ref (-1) in Array.iteri (fun i q -> if q = p && !r < 0 then r := i) pts; !r in
+          print_endline (Printf.sprintf "CLOUD %d%s" (List.length out) (String.concat "" (List.map (fun o -> Printf.sprintf " %d" (idx o.op_pos)) out)))))
+  | _ -> print_endline "?"
+
+let commands : (string * (string -> unit)) list ref = ref [ ("init", cmd_init); ("divider", cmd_divider); ("contact", cmd_contact); ("vtkread", cmd_vtkread); ("output", cmd_output); ("params", cmd_params); ("vtk", cmd_vtk); ("population", cmd_population); ("replay", cmd_replay); ("forces", cmd_forces); ("geometry", cmd_geometry); ("valid", cmd_valid); ("cellcycle", cmd_cellcycle); ("kernel", cmd_kernel); ("grid", cmd_grid); ("integrate", cmd_integrate) ]
 
 let () =
   let cmd = Sys.argv.(1) in
